@@ -503,14 +503,18 @@ def isSemiRegular (t : List Cell) : Bool :=
 
 def minInt (l : List Int) : Option Int := l.foldl (fun m x => match m with | none => some x | some y => some (min x y)) none
 
-/-- `MatrixIndex.from_triangle(tri)` with default arguments -/
-def MatrixIndex.ofTriangle (t : List Cell) : Except Err MatrixIndex := do
-  let some expOrigin := minInt (t.map fun c => monthToId c.ps) | throw .valueError
-  let some expRes := periodResolution t | throw .typeError
-  let some devOrigin := minInt (t.map fun c => truncInt (c.devLag .month)) | throw .valueError
-  let some devRes := evalDateResolution t | throw .other   -- "Must supply eval_resolution"
-  pure { slices := Triangle.metadata t, fields := sortStrings (allFields t), expOrigin := expOrigin,
-         devOrigin := devOrigin, expResolution := expRes, devResolution := devRes }
+/-- `MatrixIndex.from_triangle(tri)` with default arguments (a single evaluation date gives no
+evaluation resolution: "Must supply eval_resolution") -/
+def MatrixIndex.ofTriangle (t : List Cell) : Except Err MatrixIndex :=
+  match minInt (t.map fun c => monthToId c.ps), periodResolution t,
+        minInt (t.map fun c => truncInt (c.devLag .month)), evalDateResolution t with
+  | some expOrigin, some expRes, some devOrigin, some devRes =>
+    .ok { slices := Triangle.metadata t, fields := sortStrings (allFields t), expOrigin := expOrigin,
+          devOrigin := devOrigin, expResolution := expRes, devResolution := devRes }
+  | none, _, _, _ => .error .valueError
+  | some _, none, _, _ => .error .typeError
+  | some _, some _, none, _ => .error .valueError
+  | some _, some _, some _, none => .error .other
 
 def indexOf? {α} [BEq α] (l : List α) (a : α) : Option Nat :=
   let i := l.findIdx (· == a)
@@ -526,32 +530,52 @@ def MatrixIndex.devNdx (ix : MatrixIndex) (lag : Rat) : Except Err Nat :=
   let n := truncInt ((lag - ix.devOrigin) / (min ix.devResolution ix.expResolution : Int))
   if n < 0 then .error .other else .ok n.toNat
 
-/-- `triangle_to_matrix(tri)` -/
-def toMatrix (t : List Cell) : Except Err Matrix := do
-  if t.isEmpty then throw .valueError
-  if !isMonthly t then throw .other
-  if !isSemiRegular t then throw .other
-  let ix ← MatrixIndex.ofTriangle t
-  let lastPeriod := (periodsOf t).getLast?.map (·.1) |>.getD Date.min
+/-- `float(value)` of a cell value that is a scalar (or a one-element array) -/
+def scalarNum? : Val → Option Rat
+  | .int i => some i
+  | .flt q => some q
+  | .arr _ _ [q] => some q
+  | _ => none
+
+/-- `data[index.resolve_indices(cell.metadata, field, cell.period_start, cell.dev_lag())] = float(value)`
+for one field of one cell -/
+def cellEntry (ix : MatrixIndex) (c : Cell) (si p d : Nat) (kv : String × Val) :
+    Except Err ((Nat × Nat × Nat × Nat) × Rat) :=
+  match indexOf? ix.fields kv.1 with
+  | none => .error .keyError
+  | some fi => match scalarNum? kv.2 with
+    | some q => .ok ((si, fi, p, d), q)
+    | none => .error .typeError
+
+def cellEntries (ix : MatrixIndex) (c : Cell) : Except Err (List ((Nat × Nat × Nat × Nat) × Rat)) :=
+  match indexOf? ix.slices c.md with
+  | none => .error .keyError
+  | some si =>
+    (ix.expNdx c.ps).bind fun p =>
+    (ix.devNdx (c.devLag .month)).bind fun d =>
+    c.values.mapM (cellEntry ix c si p d)
+
+def maxLagOf (t : List Cell) : Rat :=
   let lags := t.map fun c => c.devLag .month
-  let maxLag := lags.foldl (fun m x => if m < x then x else m) (lags.headD 0)
-  let maxP ← ix.expNdx lastPeriod
-  let maxD ← ix.devNdx maxLag
-  let entries ← t.mapM fun c => do
-    let some si := indexOf? ix.slices c.md | throw .keyError
-    let p ← ix.expNdx c.ps
-    let d ← ix.devNdx (c.devLag .month)
-    c.values.mapM fun kv => do
-      let some fi := indexOf? ix.fields kv.1 | throw .keyError
-      match kv.2 with
-      | .int i => pure ((si, fi, p, d), (i : Rat))
-      | .flt q => pure ((si, fi, p, d), q)
-      | .arr _ _ [q] => pure ((si, fi, p, d), q)
-      | _ => throw .typeError
-  let es := entries.flatten
-  if es.any (fun e => e.1.2.2.1 > maxP || e.1.2.2.2 > maxD) then throw .indexError
-  pure { index := ix, nPeriods := maxP + 1, nDevs := maxD + 1, entries := es,
-         incremental := match t with | c :: _ => c.kind == .incremental | [] => false }
+  lags.foldl (fun m x => if m < x then x else m) (lags.headD 0)
+
+def lastPeriodStart (t : List Cell) : Date := (periodsOf t).getLast?.map (·.1) |>.getD Date.min
+
+/-- the data part of `triangle_to_matrix`, for a given index -/
+def toMatrixWith (ix : MatrixIndex) (t : List Cell) : Except Err Matrix :=
+  (ix.expNdx (lastPeriodStart t)).bind fun maxP =>
+  (ix.devNdx (maxLagOf t)).bind fun maxD =>
+  (t.mapM (cellEntries ix)).bind fun entries =>
+  if entries.flatten.any (fun e => e.1.2.2.1 > maxP || e.1.2.2.2 > maxD) then .error .indexError
+  else .ok { index := ix, nPeriods := maxP + 1, nDevs := maxD + 1, entries := entries.flatten,
+             incremental := firstIsIncremental t }
+
+/-- `triangle_to_matrix(tri)` -/
+def toMatrix (t : List Cell) : Except Err Matrix :=
+  if t.isEmpty then .error .valueError
+  else if !isMonthly t then .error .other
+  else if !isSemiRegular t then .error .other
+  else (MatrixIndex.ofTriangle t).bind fun ix => toMatrixWith ix t
 
 /-- last assignment to a position wins -/
 def Matrix.get? (m : Matrix) (pos : Nat × Nat × Nat × Nat) : Option Rat :=
@@ -561,26 +585,32 @@ def Matrix.get? (m : Matrix) (pos : Nat × Nat × Nat × Nat) : Option Rat :=
 facts: `min(exp, dev)` (after fix D10) -/
 def devSpacing (ix : MatrixIndex) : Int := min ix.expResolution ix.devResolution
 
-/-- `matrix_to_triangle(mat)` -/
-def fromMatrix (m : Matrix) : Except Err (List Cell) := do
+def matrixLag (ix : MatrixIndex) (k : Nat) : Rat := ((ix.devOrigin + (k : Int) * devSpacing ix : Int) : Rat)
+
+def matrixValues (m : Matrix) (i j k : Nat) : Dict Val :=
+  (List.zip (List.range m.index.fields.length) m.index.fields).filterMap fun p =>
+    (m.get? (i, p.1, j, k)).map fun q => (p.2, Val.flt q)
+
+/-- the cell at position `(i, j, k)` of the matrix, if any value is there -/
+def matrixCell (m : Matrix) (i j k : Nat) : Except Err (Option Cell) :=
   let ix := m.index
-  let cells ← (List.range ix.slices.length).mapM fun i =>
-    (List.range m.nPeriods).mapM fun (j : Nat) =>
-      (List.range m.nDevs).mapM fun (k : Nat) => do
-        let j' : Int := j
-        let ps := idToMonth (ix.expOrigin + j' * ix.expResolution)
-        let pe := idToMonth (ix.expOrigin + (j' + 1) * ix.expResolution - 1) false
-        let lag (k : Nat) : Rat := ((ix.devOrigin + (k : Int) * devSpacing ix : Int) : Rat)
-        let values := (List.zip (List.range ix.fields.length) ix.fields).filterMap fun (fi, f) =>
-          (m.get? (i, fi, j, k)).map fun q => (f, Val.flt q)
-        if values.isEmpty then pure none else
-        let md := ix.slices[i]?.getD {}
-        if !m.incremental then
-          (({ kind := .cumulative, ps := ps, pe := pe, ev := addMonths pe (lag k), values := values, md := md } : Cell).mk?).map some
-        else
-          let prev := if k == 0 then ps.pred else addMonths pe (lag (k - 1))
-          (({ kind := .incremental, ps := ps, pe := pe, ev := addMonths pe (lag k), prev := some prev,
-              values := values, md := md } : Cell).mk?).map some
+  let ps := idToMonth (ix.expOrigin + (j : Int) * ix.expResolution)
+  let pe := idToMonth (ix.expOrigin + ((j : Int) + 1) * ix.expResolution - 1) false
+  let values := matrixValues m i j k
+  if values.isEmpty then .ok none
+  else if !m.incremental then
+    (Cell.mk? { kind := .cumulative, ps := ps, pe := pe, ev := addMonths pe (matrixLag ix k),
+                values := values, md := ix.slices[i]?.getD {} }).map some
+  else
+    (Cell.mk? { kind := .incremental, ps := ps, pe := pe, ev := addMonths pe (matrixLag ix k),
+                prev := some (if k == 0 then ps.pred else addMonths pe (matrixLag ix (k - 1))),
+                values := values, md := ix.slices[i]?.getD {} }).map some
+
+/-- `matrix_to_triangle(mat)` -/
+def fromMatrix (m : Matrix) : Except Err (List Cell) :=
+  ((List.range m.index.slices.length).mapM fun i =>
+    (List.range m.nPeriods).mapM fun j =>
+      (List.range m.nDevs).mapM fun k => matrixCell m i j k).bind fun cells =>
   Triangle.ofCells ((cells.flatten.flatten).filterMap id)
 
 end Bermuda.Frame
